@@ -7,6 +7,7 @@ import argparse
 import importlib
 import json
 import os
+import signal
 import sys
 
 os.environ.setdefault("PYTHONHASHSEED", "0")
@@ -33,12 +34,21 @@ def main():
         print(json.dumps(data, indent=1)[:4000])
         return 0
     chk = Check(a.pid, tier, seed)
+    # watchdog: a training loop that no longer terminates (e.g. an ignored iteration cap) must end as a reported violation, not as a hang.
+    # The limits are two orders of magnitude above the normal running time of a check (quick: < 1 min, thorough: a few minutes).
+    limit = int(os.environ.get("VERIF_WATCHDOG", "0") or 0) or (3600 if tier == "quick" else 6 * 3600)
+
+    def on_alarm(signum, frame):
+        raise TimeoutError("no result within %d s" % limit)
+    signal.signal(signal.SIGALRM, on_alarm)
+    signal.alarm(limit)
     try:
         return mod.run(chk)
     except Exception as e:      # an exception escaping from the implementation (or the harness) on a generated case
         import traceback
         tb = traceback.format_exc()
         in_impl = "/src/bob/learn/em/" in tb
+        signal.alarm(0)
         chk.fail(("the implementation raised %r on a generated case" if in_impl else "the check itself failed with %r") % (e,),
                  {"traceback": tb.splitlines()[-25:], "raised_inside_implementation": in_impl})
         return chk.finish(rule="aborted by an exception; see the replay file")
